@@ -277,3 +277,25 @@ func VerifC18_AcceptStreams() {
 		verifapi.Assert(told == want, "C18: every connection of a session carries the address known when the session was established, or none")
 	}
 }
+
+// ---- C18: every carrier of a session updates the session's address, "none" included -----------
+//
+// "the address of the most recent carrier that had to do with the session is the one credited":
+// a later carrier without client_ip must replace an earlier carrier's address, not keep it.
+
+func VerifC18_CarrierUpdatesMap() {
+	cid := verifSessionID(0)
+	pconn := turbotunnel.NewQueuePacketConn(ClientMapAddr(""), clientMapTimeout)
+	addrs := [3]string{"", "198.51.100.1:1", "203.0.113.2:1"}
+	for k := 0; k < 2; k++ {
+		a := ClientMapAddr(addrs[verifapi.Concrete(verifapi.Choice("carrier address", 3))])
+		end := make(chan struct{})
+		close(end) // the carrier presents its ClientID and is cut
+		conn := &verifCarrierConn{in: cid[:], endRead: end}
+		err := turbotunnelMode(conn, a, pconn)
+		verifapi.Assert(err == nil, "a carrier that presents a ClientID is served")
+		got, ok := clientIDAddrMap.Get(cid)
+		verifapi.Assert(ok && got == net.Addr(a), "C18: the session is credited with the address of its most recent carrier - or with none if that carrier had none")
+	}
+	verifapi.Cover("two carriers of one session")
+}
